@@ -63,6 +63,6 @@ def _fragment_type_applies {ε T C : Type} [BEq T] (exc : String → ε) (get_ty
      (match (get_type_from_literal type_condition) with
        | .error e__ => (.error e__)
        | .ok fragment_type =>
-         (.ok ((fragment_type == object_type) || ((isAbstract fragment_type) && (is_possible_type fragment_type object_type)))))))
+         (.ok ((fragment_type == object_type) || (((isAbstract fragment_type)) && (is_possible_type fragment_type object_type)))))))
 
 end PyGql.Generated.Tr
